@@ -105,6 +105,33 @@ def execute(args):
         nun = sum(1 for c, s, r, col in got if c == "ONSETS_UNORDERED")
         if nun != (1 if case["unordered"] else 0):
             problems.append(("unordered-warning", "table %s: %d out-of-order warnings, prescribed %d" % (table, nun, 1 if case["unordered"] else 0)))
+    # the same cells as a spreadsheet WITHOUT a header line (columns are then labelled by number, rows count from 1); only for
+    # tables without temporal cells and unknown keys; every first cell also carries a warning-only tag, warnings are asked for
+    if all(r["h"] in ("a", "b", "bad", "na") and r["c"] in ("a", "b", "bad", "na") for r in case["rows"]) and n:
+        from hed import SpreadsheetInput
+        from hed.errors import ErrorHandler
+        cat = {"a": TAGS[rot % len(TAGS)][0], "b": TAGS[rot % len(TAGS)][1], "bad": BAD[rot % len(BAD)], "na": "n/a"}
+        lines = []
+        for k, r in enumerate(case["rows"]):
+            c0 = table["HED"][k]
+            c0 = "Item/Blorpx%d" % k if c0 == "n/a" else c0 + ", Item/Blorpx%d" % k
+            lines.append("%s\t%s" % (c0, cat[r["c"]]))
+        try:
+            sp = SpreadsheetInput(io.StringIO("\n".join(lines) + "\n"), file_type=".tsv", has_column_names=False, tag_columns=[0, 1])
+            gs = sp.validate(_G["schema"], extra_def_dicts=_G["dd"], error_handler=ErrorHandler(check_for_warnings=True))
+            got_s = sorted({(i.get("code"), i.get("ec_row"), "" if i.get("ec_column") is None else i.get("ec_column"))
+                            for i in gs if i.get("severity", 1) == 1})
+            want_s = sorted({(c_, r_ - 1, {"HED": 0, "cat": 1}.get(col_, "")) for c_, r_, col_ in want_err}, key=repr)
+            dirty_s = {r_ for c_, r_, col_ in want_s if col_ != ""}
+            miss_s = [x for x in want_s if x not in got_s]
+            extra_s = [x for x in got_s if x not in want_s and x[1] not in dirty_s]
+            if miss_s or extra_s:
+                kind = "headerless:wrong-label" if any(m[0] == x[0] for m in miss_s for x in got_s) else \
+                    ("headerless:missing:%s" % miss_s[0][0] if miss_s else "headerless:extra:%s" % extra_s[0][0])
+                problems.append((kind, "spreadsheet without header %r: errors reported %s, prescribed %s" % (lines, got_s, want_s)))
+        except Exception as ex:  # noqa
+            problems.append(("headerless:raises:%s" % type(ex).__name__, "validating the spreadsheet without header %r raised %s: %s"
+                             % (lines, type(ex).__name__, ex)))
     # cross-oracle: rows with error-free cells == string-level validation of the assembled row
     cellerr_rows = {r for c, r, col in want_err if col}
     for i in range(n):
